@@ -753,10 +753,10 @@ def model_pair(ctx, route, o, th, thx, cfg, gene_idx, exact, up, down, d1,
     p_amb = any(near(h, thx['p_th']) for h in o['holm'])
     base = {'th': ru.th_json(th), 'q1': jfrs(o['q1']),
             'qdiff': jfrs(o['qdiff']), 'fold': jfrs(o['fold']),
-            'praw': jfrs(o['p'])}
+            'praw': jfrs(o['p']), 'n1': o['n1'], 'n2': o['n2']}
     if route == 'main':
         inp = dict(base, exact=exact, nValid=cfg['n_valid'],
-                   geneIdx=gene_idx, n1=o['n1'], n2=o['n2'],
+                   geneIdx=gene_idx,
                    mean1=jfrs(o['mean1']), mean2=jfrs(o['mean2']))
         out = ctx.model('refmarkers.score', inp)
         if 'err' in out:
@@ -825,8 +825,9 @@ def model_pair(ctx, route, o, th, thx, cfg, gene_idx, exact, up, down, d1,
 
 
 def check_mask_file(ctx, oracle, mask, th, detail0):
-    """the mask file alone: stored <=> corrected p < p_th and no floor
-    violated; stored value -1 <=> passes every strict criterion"""
+    """the mask file alone: stored <=> both clusters have >= 2 cells,
+    corrected p < p_th and no floor violated; stored value -1 <=> passes every
+    strict criterion"""
     thx = th_frac(th)
     G = oracle.G
     ip = [int(x) for x in mask['indptr']]
@@ -844,11 +845,18 @@ def check_mask_file(ctx, oracle, mask, th, detail0):
         idx = [int(x) for x in mask['indices'][ip[i]:ip[i + 1]]]
         dat = [float(x) for x in mask['data'][ip[i]:ip[i + 1]]]
         stored = dict(zip(idx, dat))
+        big = o['n1'] >= 2 and o['n2'] >= 2
         for g in range(G):
             f = facts[g]
+            if g in stored and not big:
+                ctx.violation('C11/mask-file/n_cells',
+                              'mask row is not empty for a pair with a '
+                              'cluster of fewer than 2 cells',
+                              dict(detail0, pair=[a, b], gene=g))
+                return False
             if f['amb']:
                 continue
-            want = f['p_ok'] and f['floors']
+            want = f['p_ok'] and f['floors'] and big
             d2 = dict(detail0, pair=[a, b], gene=g,
                       holm=float(o['holm'][g]), stored=stored.get(g))
             if (g in stored) != want:
@@ -914,7 +922,7 @@ def route_error(ctx, route, res, detail0, expect=()):
         return
     cfg = detail0.get('cfg', {})
     n_genes = len(detail0.get('problem', {}).get('genes', []))
-    if cls in ('one-pair-chunk', 'empty-direction'):
+    if cls in ('one-pair-chunk', 'empty-direction', 'no-pairs'):
         sig = 'C11/raises/' + cls
     elif cls == 'IndexError-n_valid' and cfg.get('n_valid', 0) > n_genes:
         sig = 'C11/raises/n_valid-gt-n_genes'
